@@ -20,6 +20,8 @@ func init() {
 		Run: func(c *Ctx) {
 			ruleAccessors(c, "R1")
 			rulePoolStartsEmpty(c, "R2")
+			ruleCaptureDiscipline(c, "R3")
+			ruleBacktrackUndo(c, "R4")
 		},
 	})
 }
